@@ -1,11 +1,10 @@
-(* Extraction of the GENERATED definitions (translator validation for C16). ExtrOcamlBasic only. *)
+(* Extraction for C16 (translator validation + L1 model). ExtrOcamlBasic only.  What is extracted are the twins of
+   Fast.v: derived from the GENERATED definitions by Ltac and proved equal to them for all arguments (Fast.*_eq). *)
 From Coq Require Import ZArith List Extraction ExtrOcamlBasic.
 From MomoCommon Require Import GenPrelude.
-From C16 Require Gen_Log2_64 Gen_Log2_32 Gen_SegSqrt Gen_SegCnst SegModel.
+From C16 Require Gen_Log2_64 Gen_Log2_32 Gen_SegSqrt Gen_SegCnst Fast SegModel.
 (* the generated table lookup uses Coq's List.nth; keep OCaml's own List module visible to lib/zutil.ml *)
 Extraction Blacklist List String.
 Separate Extraction
-  Gen_Log2_64.Log2 Gen_Log2_32.Log2
-  Gen_SegSqrt.GetSegItemIndexes Gen_SegSqrt.GetIndex Gen_SegSqrt.GetItemCount
-  Gen_SegCnst.GetSegItemIndexes Gen_SegCnst.GetIndex Gen_SegCnst.GetItemCount
-  SegModel.step SegModel.capacity SegModel.empty SegModel.len.
+  Fast.log2_64 Fast.log2_32 Fast.sq_seg Fast.sq_idx Fast.sq_cnt Fast.cn_seg Fast.cn_idx Fast.cn_cnt
+  SegModel.step SegModel.capacity SegModel.empty SegModel.len SegModel.wstep SegModel.wempty SegModel.stA SegModel.stB.
